@@ -72,6 +72,7 @@ type PkgSpec struct {
 	Contracts map[string]*Contract
 	Order     []string
 	Ghosts    []*GhostFunc
+	GhostVars []*GhostFunc
 	Globals   []*Clause
 	Imports   []string
 	Lemmas    []*Lemma
@@ -183,6 +184,10 @@ func parseSpecFile(path, relDir string) (*PkgSpec, error) {
 			cur, curLemma = nil, nil
 		case "ghost":
 			src := strings.TrimSpace(it.text)
+			if mv := regexp.MustCompile(`^var\s+(\w+)\s+(.+)$`).FindStringSubmatch(src); mv != nil {
+				ps.GhostVars = append(ps.GhostVars, &GhostFunc{Name: mv[1], Src: src, Line: it.line})
+				continue
+			}
 			m := regexp.MustCompile(`^func\s+(\w+)`).FindStringSubmatch(src)
 			if m == nil {
 				return nil, fmt.Errorf("%s:%d: bad ghost declaration", path, it.line)
@@ -442,7 +447,7 @@ var builtinRename = map[string]string{
 	"mapLen": "gh_mapLen", "allocated": "gh_allocated", "pureOf": "gh_pureOf",
 	"uf": "gh_uf", "ufb": "gh_ufb", "ufr": "gh_ufr", "seqOf": "gh_seqOf", "wrote": "gh_wrote", "div": "gh_div", "mod": "gh_mod",
 	"sameElems": "gh_sameElems", "abs": "gh_abs", "min": "gh_min", "max": "gh_max",
-	"count": "gh_count", "sum": "gh_sum",
+	"count": "gh_count", "sum": "gh_sum", "upd": "gh_upd", "mapEq": "gh_mapEq", "emptyMap": "gh_emptyMap",
 }
 
 var identCallRe = regexp.MustCompile(`\b([A-Za-z_]\w*)\s*\(`)
@@ -490,7 +495,12 @@ func gh_abs(a int) int                    { if a < 0 { return -a }; return a }
 func gh_min(a, b int) int                 { if a < b { return a }; return b }
 func gh_max(a, b int) int                 { if a < b { return b }; return a }
 func gh_wrote() int                       { return 0 }
+func gh_upd[K comparable, V any](m map[K]V, k K, v V) map[K]V { return m }
+func gh_mapEq[K comparable, V any](a, b map[K]V) bool { return len(a) == len(b) }
 `)
+	for _, g := range ps.GhostVars {
+		b.WriteString(g.Src + "\n")
+	}
 	for _, g := range ps.Ghosts {
 		b.WriteString(renameBuiltins(rewriteGhostBody(g.Src)) + "\n")
 	}
